@@ -594,6 +594,62 @@ def run (c : Logger W Msg) : List Msg → List (Ev W) → Except PyErr (List Msg
 
 end Logger
 
+/-! ### Logger: constructor fallback and the `logger_fn` branches (extension round 2) -/
+
+/-- what the caller passes as `msg_gen` to `Logger.__init__` (logger.py:37-41) -/
+inductive MsgGenArg (W : Type) where
+  /-- not passed / `None` -/
+  | omitted
+  /-- a callable: `f w e` is `msg_gen(nn_state, epoch, **kwargs)` -/
+  | callable (f : W → Int → String)
+  /-- any object with `callable(obj) == False` (a string, a number, a dict, …) -/
+  | nonCallable
+
+/-- what the caller passes as `logger_fn` -/
+inductive LoggerFnArg where
+  /-- not passed: the builtin `print` (one line on stdout per message) -/
+  | print
+  /-- a callable receiving the message -/
+  | callable
+  /-- an object that is not callable (`None`, a string, …): nothing is checked in `__init__`; CALLING it raises `TypeError` -/
+  | nonCallable
+  deriving DecidableEq, Repr
+
+/-- `Logger.__init__` (logger.py:37-41): `self.msg_gen = msg_gen if callable(msg_gen) else self._default_msg_gen` — a
+non-callable `msg_gen` is silently replaced by the default generator, exactly like an omitted one;
+`kwargsRepr = str(msg_gen_kwargs)`. -/
+def Logger.new {W : Type} (period : Int) (msgGen : MsgGenArg W) (kwargsRepr : String) : Logger W String :=
+  ⟨period, match msgGen with
+    | .callable f => f
+    | .omitted => fun _ e => defaultMsg kwargsRepr e
+    | .nonCallable => fun _ e => defaultMsg kwargsRepr e⟩
+
+/-- what a run of a `Logger` leaves behind: the messages handed to a callable `logger_fn`, and the texts given to `print`
+(each appears on stdout followed by a newline), both in order -/
+structure LogOut where
+  handed : List String
+  printed : List String
+  deriving DecidableEq, Repr
+
+/-- `Logger.on_epoch_end` (logger.py:47-49) with the three kinds of `logger_fn`:
+`if epoch % self.period == 0: self.logger_fn(self.msg_gen(nn_state, epoch, **kwargs))` — the message is generated first, then the
+call of a non-callable object raises `TypeError` (only at an epoch that passes the gate). -/
+def Logger.stepFn {W : Type} (c : Logger W String) (fn : LoggerFnArg) (s : LogOut) : Ev W → Except PyErr LogOut
+  | .epochEnd e w =>
+    match gate e c.period with
+    | .error err => .error err
+    | .ok false => .ok s
+    | .ok true =>
+      let m := c.msgGen w e
+      match fn with
+      | .print => .ok { s with printed := s.printed ++ [m] }
+      | .callable => .ok { s with handed := s.handed ++ [m] }
+      | .nonCallable => .error .TypeError
+  | _ => .ok s
+
+def Logger.runFn {W : Type} (c : Logger W String) (fn : LoggerFnArg) : LogOut → List (Ev W) → Except PyErr LogOut :=
+  runWith (c.stepFn fn)
+
 /-! ### a callback list (CallbackList dispatch in list order, callback.py / fit) -/
 
 /-- one of the four periodic callbacks -/
